@@ -2541,7 +2541,8 @@ class C18(MiscProp):
             "with the boundary moved, repeat one request with equal / shrinking / growing dkLen, permute or change one of N, r, p, exchange password and "
             "salt, or differ by one byte at either end; every call must return the RFC value of its own arguments (OpenSSL), and for N <= 16, r, p <= 2 "
             "the whole sequence is also evaluated through Model/ScryptFfi.v's ffi_scrypt over one memory threaded through the calls and through "
-            "Spec/Scrypt.v. non-trivial = all; distinct = distinct requests")
+            "Spec/Scrypt.v. thorough tier: Spec/Scrypt.v's rfc_scrypt itself evaluated by coqc at the production parameters N = 32768, r = 8, p = 1 "
+            "(one password/salt, ~50 min, 7 GB, cached) and compared with the library and with OpenSSL. non-trivial = all; distinct = distinct requests")
     assumptions = ["OpenSSL's EVP scrypt (through Python's hashlib) is the reference RFC 7914 implementation",
                    "parameters outside the documented domain (N not a power of two or < 2, r = 0, p = 0, dkLen = 0) are not exercised",
                    "the C ABI check sees writes within 64 bytes before / after the output buffer; stray writes elsewhere are not observable"]
@@ -2554,6 +2555,59 @@ class C18(MiscProp):
         self.internals(ctx)
         self.ffi(ctx)
         self.call_sequences(ctx)
+        if ctx.thorough():
+            self.production_gallina(ctx)
+
+    # ---------------------------------------------------------------- the production parameters, evaluated in Gallina itself
+    def production_gallina(self, ctx):
+        """thorough only: Spec/Scrypt.v's RFC 7914 definition (the right-hand side of C18_impl_refines_rfc) evaluated by coqc
+        (vm_compute) at kestrel's own parameters N = 32768, r = 8, p = 1, dkLen = 32 on one password and salt, compared with
+        the library's value.  About 50 minutes and 7 GB for one evaluation, so the Gallina value is cached under .cache keyed by
+        the input and by the text of the Spec files it is computed from."""
+        coqd = os.path.join(vlib.VERIF, "coq")
+        if not coq_has("Spec/Scrypt.v", "Spec/ScryptConcrete.v", "Spec/Hex.v"):
+            return
+        pw, salt = b"password", bytes(range(32))
+        h = hashlib.sha256()
+        for f in ("Bytes.v", "Spec/Sha256.v", "Spec/Hmac.v", "Spec/Pbkdf2.v", "Spec/Salsa.v", "Spec/Scrypt.v", "Spec/ScryptConcrete.v"):
+            fp = os.path.join(coqd, f)
+            h.update(open(fp, "rb").read() if os.path.exists(fp) else b"-")
+        h.update(pw + b"|" + salt)
+        cache = os.path.join(vlib.CACHE, "c18_prod_%s.hex" % h.hexdigest()[:24])
+        gal = None
+        if os.path.exists(cache):
+            gal = open(cache).read().strip()
+            self.count(ctx, "production-gallina:cached")
+        else:
+            d = tempfile.mkdtemp(prefix="c18prod_", dir=vlib.CACHE)
+            try:
+                with open(os.path.join(d, "prod.v"), "w") as f:
+                    f.write("From Kestrel Require Import Bytes.\nFrom Coq Require Import String.\n"
+                            "From Kestrel.Spec Require Import Scrypt ScryptConcrete Hex.\nLocal Open Scope string_scope.\n"
+                            "Eval vm_compute in (rfc_scrypt (hx \"%s\") (hx \"%s\") 32768 8 1 32).\n" % (pw.hex(), salt.hex()))
+                try:
+                    r = subprocess.run(["coqc", "-q", "-noglob", "-Q", coqd, "Kestrel", "prod.v"], cwd=d, capture_output=True, text=True, timeout=4 * 3600)
+                    m = re.search(r"= \[(.*?)\]\s*:\s*bytes", r.stdout, re.S)
+                    if r.returncode == 0 and m:
+                        gal = bytes(int(x) for x in re.findall(r"(\d+)%N", m.group(1))).hex()
+                        os.makedirs(vlib.CACHE, exist_ok=True)
+                        open(cache, "w").write(gal + "\n")
+                except subprocess.TimeoutExpired:
+                    pass
+            finally:
+                shutil.rmtree(d, ignore_errors=True)
+            self.count(ctx, "production-gallina:evaluated" if gal else "production-gallina:not-evaluated")
+        if gal is None:
+            return
+        line = "scrypt %s %s 32768 8 1 32" % (hexs(pw), hexs(salt))
+        r_ = drv(ctx.bin, [line], timeout=600)[0]
+        inp = {"driver": "libdrv", "lines": [line], "oracle": "scrypt-gallina-production"}
+        self.ran(ctx, "library/production-parameters-vs-gallina")
+        got = r_.get("out", "-") if r_.get("outcome") == "ok" else None
+        self.check(ctx, got == gal, inp, "Spec/Scrypt.v rfc_scrypt evaluated by coqc at N=32768 r=8 p=1: " + gal, r_["raw"][:300])
+        ctx.agreed += 1 if got == gal else 0
+        if ref_scrypt(pw, salt, 32768, 8, 1, 32).hex() != gal:
+            self.machinery(ctx, "Gallina rfc_scrypt and OpenSSL disagree at the production parameters")
 
     # ---------------------------------------------------------------- call sequences in ONE process (C ABI and library)
     def gen_sequences(self, ctx):
